@@ -380,17 +380,18 @@ func (r *Runner) Apply(k int, op OpSpec) {
 		default:
 			class += ":reorg-longer"
 		}
-		if t.Num[headAfter] < t.Num[headBefore] {
+		// the known stale-number mechanism needs a switch to ANOTHER, shorter branch
+		if t.Num[headAfter] < t.Num[headBefore] && !t.IsAncestor(headAfter, headBefore) {
 			s.Shortened = true
+		}
+		if hdrAfter, ok := t.ByHash[s.BC.CurrentHeader().Hash()]; ok && t.Num[hdrAfter] < t.Num[hdrBefore] && !t.IsAncestor(hdrAfter, hdrBefore) {
+			s.Shortened = true // a block import pulled the header head over to a shorter branch
 		}
 	case "headers":
 		for _, n := range op.Nodes {
 			if s.HdrElig[t.Spec[n].Parent] {
 				s.HdrElig[n] = true
 			}
-		}
-		if s.Name != "h" {
-			s.Mixed = true
 		}
 		if !strings.HasPrefix(impl, "ok") {
 			class += ":" + strings.Fields(impl)[0]
@@ -400,6 +401,11 @@ func (r *Runner) Apply(k int, op OpSpec) {
 			for b := from; b != 0 && t.Num[b] > op.N; b = t.Spec[b].Parent {
 				s.Rewound[b] = true
 			}
+		}
+		// the block head can fall further than the target (a pruning node whose rewound state is
+		// gone falls back to the genesis block): those blocks were rewound by this SetHead too
+		for b := headBefore; b != 0 && t.Num[b] > t.Num[headAfter]; b = t.Spec[b].Parent {
+			s.Rewound[b] = true
 		}
 		if op.N >= t.Num[hdrBefore] {
 			class += ":noop"
@@ -584,38 +590,44 @@ func (r *Runner) oracleC02(s *Session, k int, op OpSpec, headBefore, hdrBefore i
 
 // C03: CanonOK at rest.
 func (r *Runner) oracleC03(s *Session, k int, op OpSpec) {
-	if s.Name != "h" && s.BC.CurrentHeader().Hash() != s.BC.CurrentBlock().Hash() {
-		// the header chain runs ahead of the block chain (e.g. SetHead on a pruning node whose
-		// rewound state is gone falls back to the genesis block but keeps the headers): from
-		// here on the history is header-first + full import mixed and C03 names no single head
-		if !s.Mixed {
-			r.C.Count("header-head-ahead-of-block-head:" + s.Name)
-		}
-		s.Mixed = true
-	}
 	if s.Mixed {
 		return
 	}
 	t, bc := r.T, s.BC
 	tag := fmt.Sprintf("%s/op%d", r.Sc.Name, k)
 	full := s.Name != "h"
-	var headHash common.Hash
-	if full {
-		headHash = bc.CurrentBlock().Hash()
-	} else {
-		headHash = bc.CurrentHeader().Hash()
-	}
-	head, ok := t.ByHash[headHash]
-	if !ok {
+	// "the head" of C03: the block head for full imports, the header head for header-first
+	// imports.  When a full chain's header head runs AHEAD of its block head on the same branch
+	// (headers imported first, bodies later; SetHead on a pruning node that falls back to an
+	// older block), the number index must describe the header head's chain, body/receipts
+	// are due up to the block head, lookups refer to the block head's chain.  When the header
+	// chain is on another branch than the blocks (which HeaderChain.WriteHeader documents as
+	// unsupported), C03 names no single head: the session leaves the oracle for good.
+	hdrHead, okh := t.ByHash[bc.CurrentHeader().Hash()]
+	blkHead, okb := t.ByHash[bc.CurrentBlock().Hash()]
+	if !okh || !okb {
 		r.C.Violate("head-unknown-block/"+tag, "the head is not a delivered block", r.replay(k, nil))
 		return
 	}
+	head, dataHead := blkHead, blkHead
+	if !full {
+		head, dataHead = hdrHead, 0
+	} else if hdrHead != blkHead {
+		if !t.IsAncestor(blkHead, hdrHead) {
+			r.C.Count("header-chain-left-the-block-chain:" + s.Name)
+			s.Mixed = true
+			return
+		}
+		r.C.Count("oracle-with-header-head-ahead:" + s.Name)
+		head = hdrHead
+	}
+	headerOnly := func(n uint64) bool { return !full || n > t.Num[dataHead] }
 	// (1) below the head: number n maps to the head's ancestor at n; (3) its data is retrievable
 	for n := uint64(0); n <= t.Num[head]; n++ {
 		anc := t.AncestorAt(head, n)
 		want := t.Blocks[anc].Hash()
 		var got common.Hash
-		if full {
+		if !headerOnly(n) {
 			if b := bc.GetBlockByNumber(n); b != nil {
 				got = b.Hash()
 			}
@@ -633,7 +645,7 @@ func (r *Runner) oracleC03(s *Session, k int, op OpSpec) {
 		if bc.GetTd(want, n) == nil {
 			miss += "td "
 		}
-		if full {
+		if !headerOnly(n) {
 			if bc.GetBody(want) == nil {
 				miss += "body "
 			}
@@ -689,7 +701,7 @@ func (r *Runner) oracleC03(s *Session, k int, op OpSpec) {
 	// (4) lookups: resolve iff in a canonical block, and then to that block and index
 	for ti, th := range t.AllTxs {
 		wantB, wantI := -1, 0
-		for b := head; b != 0; b = t.Spec[b].Parent {
+		for b := dataHead; b != 0; b = t.Spec[b].Parent {
 			for i, h := range t.TxsOf[b] {
 				if h == th {
 					wantB, wantI = b, i
